@@ -212,6 +212,62 @@ pub fn chains_part(thorough: bool) -> Value {
     })
 }
 
+/// engine H part: in every state of multi-replica histories every stored array version known to a
+/// replica (warm author or cold reader) reconstructs to the array that was submitted
+pub struct StoredVersionsProbe;
+
+impl Probe for StoredVersionsProbe {
+    fn on_state(&self, sc: &Scenario, hist: &[Op], cx: &mut Cx) {
+        let w = sc.build(hist);
+        if w.any_dead() {
+            return;
+        }
+        if let Some(c) = w.truth_conflicts.first() {
+            cx.violation("C16", "C16:update-did-not-record-the-submitted-array", sc, hist, c.clone());
+            return;
+        }
+        for r in 0..sc.nrep {
+            w.focus();
+            let m = &w.reps[r].m;
+            for ((uuid, rev), want) in &w.truth {
+                let known = m.verif_dump_tree(uuid).map(|t| t.iter().any(|(x, _, _)| x == rev)).unwrap_or(false);
+                if !known {
+                    continue;
+                }
+                cx.count("stored_version_checks");
+                match crate::guard::call("verif_array_order", || m.verif_array_order(uuid, rev)) {
+                    Ok(Ok(o)) => {
+                        let got: Vec<String> = o.iter().filter_map(|x| x.as_str().map(|s| s.to_string())).collect();
+                        if &got != want {
+                            cx.violation("C16", "C16:stored-version-reconstructs-differently", sc, hist,
+                                json!({"replica": r, "uuid": uuid, "revision": rev, "reconstructed": got, "submitted": want}));
+                            return;
+                        }
+                        cx.outcome(format!("{}:{:?}", rev, got));
+                    }
+                    Ok(Err(e)) => {
+                        cx.violation("C16", "C16:stored-version-unreadable", sc, hist, json!({"replica": r, "uuid": uuid, "revision": rev, "error": e.to_string()}));
+                        return;
+                    }
+                    Err(p) => {
+                        cx.violation("C16", "C16:stored-version-panics", sc, hist, json!({"replica": r, "uuid": uuid, "revision": rev, "panic": p}));
+                        return;
+                    }
+                }
+            }
+        }
+    }
+}
+
+fn h_scenarios(thorough: bool) -> Vec<Scenario> {
+    vec![
+        pair_scenario("pair-arrays", if thorough { &[1, 2, 3, 5, 6, 11] } else { &[1, 2, 3, 5] }, if thorough { 6 } else { 5 }, &[Op::Reopen(1), Op::Travel(1, 0)]),
+        pair_conflict_scenario("pair-conflict", 2, 3, if thorough { &[1, 5, 11, 4] } else { &[1, 5] }, if thorough { 5 } else { 4 }, &[Op::Reopen(1), Op::Reopen(0), Op::Resolve(1, 0, 0)]),
+        diamond_scenario("pair-diamond", &[1, 5], if thorough { 4 } else { 3 }, &[Op::Reopen(0), Op::Travel(0, 1), Op::Travel(0, 2)]),
+        trio_scenario("trio", if thorough { 7 } else { 6 }),
+    ]
+}
+
 pub fn run(thorough: bool, rest: &[String]) {
     if rest.first().map(|s| s.as_str()) == Some("--part-chains") {
         println!("RESULT {}", chains_part(thorough));
@@ -258,6 +314,18 @@ pub fn run(thorough: bool, rest: &[String]) {
     }
     rep.set("chain_walks", json!(parts));
     rep.push_sample(json!({"chain": ["upd {l♭:[x,y]}", "commit", "upd {l♭:[y,x,z]}", "commit", "upd {}", "commit", "reopen", "read", "rebuild every stored version"]}));
+    // multi-replica histories (cold readers, time travel, reopen) under three cache capacities
+    for cap in ["1", "2", "16"] {
+        std::env::set_var("MELDA_ARRAYDESCRIPTORS_CACHE_CAP", cap);
+        let mut scs = h_scenarios(thorough);
+        for sc in scs.iter_mut() {
+            sc.name = format!("{}[array_cache_cap={}]", sc.name, cap);
+            sc.key_opts.heads = true;
+        }
+        run_h(&mut rep, RunCfg { scenarios: scs, probes: vec![std::sync::Arc::new(StoredVersionsProbe)], pools: vec![1], time_budget_s: if thorough { 900 } else { 15 }, max_states: if thorough { 100_000 } else { 4_000 }, stop_on_violation: true });
+    }
+    std::env::remove_var("MELDA_ARRAYDESCRIPTORS_CACHE_CAP");
+    rep.coverage.remove("_outcomes");
     // the cache shortcut of the chain walk under every schedule of the parallel readers (engine S):
     // three arrays, cache capacity 3, reader two versions behind its cached ancestors
     crate::props::engine_s::run_engine_s_only(&mut rep, thorough, "C16", Some("multi-array"));
